@@ -54,8 +54,14 @@ def one(world, spec, store_kind, populated, plen, style, invalid=None, entry="ev
         t_state = twin.store_state()
         if t_real.status != "ok":
             return probs
-        before = test.store_state()
         stages = INVALID[invalid] if invalid else spell(plen, style)
+        if not invalid and 3 <= plen <= 4:
+            # the same restricted run once before: its blobs are in the store, its paths must still not be committed by the next one
+            path_before = test.store_state()[1]
+            r0, _ = test.run(entry, opts={"dds_stages": stages})
+            if r0.status == "ok" and test.store_state()[1] != path_before:
+                bad("committed_paths", "the first of two restricted runs changed paths although path_commit is not in the list")
+        before = test.store_state()
         r, ref = test.run(entry, opts={"dds_stages": stages})
         after = test.store_state()
         if invalid:
